@@ -271,7 +271,9 @@ impl StdInWorker for ScanStdin {
   ) -> Result<Vec<P::Processed>> {
     use ast_grep_core::Language;
     let lang = self.rules[0].language;
-    let combined = CombinedScan::new(self.rules.iter().collect());
+    // a turned-off rule reports nothing, same as scanning files
+    let enabled = |r: &&RuleConfig<SgLang>| !matches!(r.severity, Severity::Off);
+    let combined = CombinedScan::new(self.rules.iter().filter(enabled).collect());
     let grep = lang.ast_grep(src);
     let path = Path::new("STDIN");
     let file_content = grep.source().to_string();
